@@ -133,6 +133,27 @@ Theorem c14_jwe_consume_unknown_kid : forall tbl ch sch kf sk g ks,
   jwe_step tbl ch sch false kf sk g = Err (EJose InvalidKeyIdError).
 Proof. exact jwe_consume_unknown_kid. Qed.
 
+
+(* decrypt_json (general / flattened; decrypt_compact is the one-recipient case):
+   the key of every recipient is looked up before anything is decrypted, and
+   JWERegistry.verify_all_recipients is not an input of that phase (jwe_attach
+   has no such argument): ONE recipient whose kid names no key of the set —
+   first, last or only — makes the call fail with InvalidKeyIdError in every
+   registry configuration *)
+Theorem c14_jwe_attach_unknown_kid : forall tbl ch sch kf ks gs,
+  (forall g, In g gs -> resolve kf g = KSSet ks) ->
+  (exists g, In g gs /\ forall k, get_by_kid ks (hget (headers g) s_kid) <> Ok k) ->
+  jwe_attach tbl ch sch kf None gs = Err (EJose InvalidKeyIdError).
+Proof. exact jwe_attach_unknown_kid. Qed.
+
+Theorem c14_jwe_attach_ok : forall tbl ch sch kf ks gs l,
+  (forall g, In g gs -> resolve kf g = KSSet ks) ->
+  jwe_attach tbl ch sch kf None gs = Ok l ->
+  Forall2 (fun g r => r = (fst (fst r), None, g) /\
+                      get_by_kid ks (hget (headers g) s_kid) = Ok (fst (fst r))) gs l.
+Proof. exact jwe_attach_ok. Qed.
+
+
 (* ---------------- producing side ---------------- *)
 (* with a (truthy) kid: exactly the named key, header untouched *)
 Theorem c14_produce_named : forall tbl ch kf g ks ur,
@@ -350,6 +371,16 @@ Example c14_x_duplicates :
   get_by_kid [xk1; mkKey (Some (asc "a")) "EC" 9 (asc "T9")] (PStr (asc "a")) = Ok xk1.
 Proof. reflexivity. Qed.
 
+Example c14_x_attach :
+  let r1 := mkGuest GJweJson (Some [(asc "enc", PStr (asc "A128GCM"))]) (Some [(s_alg, PStr (asc "A128KW"))])
+                    (Some [(s_kid, PStr (asc "a"))]) in
+  let r2 := mkGuest GJweJson (Some [(asc "enc", PStr (asc "A128GCM"))]) (Some [(s_alg, PStr (asc "A128KW"))])
+                    (Some [(s_kid, PStr (asc "nope"))]) in
+  jwe_attach xtbl (ch_idx 0) (ch_idx 0) (KFDirect (KSSet xks)) None [r1; r2] = Err (EJose InvalidKeyIdError) /\
+  jwe_attach xtbl (ch_idx 0) (ch_idx 0) (KFDirect (KSSet xks)) None [r2; r1] = Err (EJose InvalidKeyIdError) /\
+  jwe_attach xtbl (ch_idx 0) (ch_idx 0) (KFDirect (KSSet xks)) None [r1] = Ok [(xk1, None, r1)].
+Proof. repeat split; vm_compute; reflexivity. Qed.
+
 Definition xg_compact := mkGuest GJwsCompact (Some [(s_alg, PStr (asc "HS256"))]) None None.
 Definition xg_member := mkGuest GJwsMember (Some [(s_alg, PStr (asc "ES256"))]) None None.
 Definition xg_jwe_json :=
@@ -455,6 +486,8 @@ Print Assumptions c14_jws_consume_uses_named.
 Print Assumptions c14_jws_consume_unknown_kid.
 Print Assumptions c14_jwe_consume_uses_named.
 Print Assumptions c14_jwe_consume_unknown_kid.
+Print Assumptions c14_jwe_attach_unknown_kid.
+Print Assumptions c14_jwe_attach_ok.
 Print Assumptions c14_produce_named.
 Print Assumptions c14_pick.
 Print Assumptions c14_pick_merged.
